@@ -82,6 +82,7 @@ def run(check: Check):
   check.floor('R-KEY', 'key uses', n_uses, 20)
   for a in aggs:
     _aggregator(check, a)
+  _per_leaf(check, m)
   _clamp(check)
   _terngrad(check)
 
@@ -459,3 +460,41 @@ def _terngrad(check: Check):
         okr = lo_ok and v_ok and hi_ok
   check.ob('R-PAIR.terngrad', fi, 'binary(|v|, rng, 0, max|v|) * sign(v)', okr,
            'ternary levels {-s, 0, +s}: magnitudes quantized between 0 and the largest clipped magnitude, sign restored')
+
+
+def _per_leaf(check: Check, m):
+  """<quantize>_pytree applies <quantize> to every leaf on its own (own range, own key): the leaf-level function is called inside the
+  loop / comprehension over the leaves with the loop's leaf as its operand - not once on all leaves concatenated, which would put every
+  leaf on the grid of the whole tree (a constant or zero leaf is then no longer returned unchanged)."""
+  repo = check.repo
+  for fi in m.functions():
+    if not fi.name.endswith('_pytree') or fi.scope.parent.kind != 'module':
+      continue
+    base = fi.name[:-len('_pytree')]
+    ff = FuncFlow.of(repo, fi)
+    calls = [c for _, c in ff.calls() if wmean.repo_fn(ff, c) == f'{m.name}:{base}']
+    seen = set()
+    calls = [c for c in calls if not (id(c) in seen or seen.add(id(c)))]
+    if not calls:
+      continue
+    for c in calls:
+      lp = wmean._loop_of(ff, c)
+      comp = None
+      cur = ff.module.parent_of.get(c)
+      while cur is not None and cur is not fi.node:
+        if isinstance(cur, (ast.ListComp, ast.GeneratorExp)):
+          comp = cur
+          break
+        cur = ff.module.parent_of.get(cur)
+      targets = set()
+      if lp is not None and isinstance(lp, ast.For):
+        targets = {x.id for x in ast.walk(lp.target) if isinstance(x, ast.Name)}
+      if comp is not None:
+        targets |= {x.id for g in comp.generators for x in ast.walk(g.target) if isinstance(x, ast.Name)}
+      per_leaf = bool(c.args) and isinstance(c.args[0], ast.Name) and c.args[0].id in targets
+      fused = bool(c.args) and any(isinstance(y, ast.Call) and (ff.ext(y.func) or '').split('.')[-1] in ('concatenate', 'hstack', 'ravel_pytree', 'stack')
+                                   for v in ff.expand(c.args[0]) for y in ff.deep_walk(v))
+      check.ob('R-PAIR.per-leaf', fi, txt(c)[:70], True if per_leaf else (False if fused or (lp is None and comp is None) else None),
+               f'{base} is applied to each leaf separately' if per_leaf else
+               f'{base} is applied once to several leaves together: they share one quantization range / one key', node=c, exact=fused)
+
